@@ -16,6 +16,17 @@ pub const CENTRE: u8 = 2;
 pub const LENGTH: u8 = 3;
 pub const PAIRS: [(u8, u8); 6] = [(START, END), (START, CENTRE), (END, CENTRE), (START, LENGTH), (END, LENGTH), (CENTRE, LENGTH)];
 
+/// constraint pair of an axis; 6..=8 stand for a single constraint (start / centre / end only), which determines the
+/// axis when the size is known from the other one (a circle's diameter)
+pub fn pair_of(p: u8) -> (u8, u8) {
+    match p {
+        0..=5 => PAIRS[p as usize],
+        6 => (START, START),
+        7 => (CENTRE, CENTRE),
+        _ => (END, END),
+    }
+}
+
 #[derive(Clone, Debug, Serialize, Deserialize)]
 pub struct Item {
     pub px: u8,
@@ -57,8 +68,12 @@ pub fn item_attrs(shape: &str, it: &Item) -> Option<Vec<(String, String)>> {
     let [x1, y1, x2, y2] = it.b;
     let (w, h) = (x2 - x1, y2 - y1);
     let (cx, cy) = ((x1 + x2) / 2.0, (y1 + y2) / 2.0);
-    let (ax, bx) = PAIRS[it.px as usize % 6];
-    let (ay, by) = PAIRS[it.py as usize % 6];
+    let (ax, bx) = pair_of(it.px);
+    let (ay, by) = pair_of(it.py);
+    // a single constraint on one axis: only for a circle whose diameter the other axis gives, without size deltas
+    if (it.px >= 6 || it.py >= 6) && !(shape == "circle" && (it.px < 6) != (it.py < 6) && it.delta < 3 && it.sp & 4 == 0) {
+        return None;
+    }
     let has = |k: u8, a: u8, b: u8| a == k || b == k;
     let mut at: Vec<(String, String)> = Vec::new();
     let short = it.sp & 1 != 0;
@@ -163,8 +178,8 @@ pub fn item_attrs(shape: &str, it: &Item) -> Option<Vec<(String, String)>> {
 /// Intended final box (after deltas).
 pub fn expected_box(it: &Item) -> [f64; 4] {
     let [mut x1, mut y1, mut x2, mut y2] = it.b;
-    let (ax, bx) = PAIRS[it.px as usize % 6];
-    let (ay, by) = PAIRS[it.py as usize % 6];
+    let (ax, bx) = pair_of(it.px);
+    let (ay, by) = pair_of(it.py);
     let grow = |s: &mut f64, e: &mut f64, a: u8, b: u8, nl: f64| {
         // which anchor stays fixed is the axis's other constraint
         let other = if a == LENGTH { b } else { a };
@@ -230,8 +245,8 @@ fn enumerate(tier: Tier, seed: u64) -> Vec<Case> {
     for shape in ["rect", "circle", "ellipse", "line"] {
         let mut items: Vec<Item> = Vec::new();
         let mut k = 0usize;
-        for px in 0..6u8 {
-            for py in 0..6u8 {
+        for px in 0..9u8 {
+            for py in 0..9u8 {
                 for sp in 0..64u8 {
                     if (sp >> 3) & 3 == 3 {
                         continue;
@@ -244,6 +259,15 @@ fn enumerate(tier: Tier, seed: u64) -> Vec<Case> {
                                 // make "both values equal" reachable for the one-value spelling
                                 let side = b[2] - b[0];
                                 b = [b[0], b[0], b[0] + side, b[0] + side];
+                            }
+                            // lines have a direction: also right-to-left / bottom-to-top ones (where no length is involved)
+                            if shape == "line" && rep % 3 == 1 && px < 3 && py < 3 {
+                                if k % 2 == 0 {
+                                    b.swap(0, 2);
+                                }
+                                if k % 3 != 0 {
+                                    b.swap(1, 3);
+                                }
                             }
                             let d = [((k % 9) as f64 - 4.0) / 2.0 + 0.25, ((k % 7) as f64 - 3.0) / 4.0];
                             let it = Item { px, py, b, sp, delta, d };
@@ -324,7 +348,7 @@ impl Property for C11 {
                 "ellipse" => vec![("cx", (x1 + x2) / 2.0), ("cy", (y1 + y2) / 2.0), ("rx", (x2 - x1) / 2.0), ("ry", (y2 - y1) / 2.0)],
                 _ => vec![("x1", x1), ("y1", y1), ("x2", x2), ("y2", y2)],
             };
-            let pairs = format!("{:?}x{:?}", PAIRS[it.px as usize % 6], PAIRS[it.py as usize % 6]);
+            let pairs = format!("{:?}x{:?}", pair_of(it.px), pair_of(it.py));
             for (k, v) in &want {
                 // x / y / cx / cy default to 0 when absent
                 let got = fnum(el, k).or(if v.abs() < 1e-9 && matches!(*k, "x" | "y" | "cx" | "cy" | "x1" | "y1" | "x2" | "y2") { Some(0.0) } else { None });
